@@ -3,7 +3,8 @@ import Gossamer.Lib.Blake2b
 import Gossamer.Model.C05
 open Gossamer Gossamer.C05
 
-/- line:  `ver|op;op;…`   (ver = 0 | 1; hex tokens, `-` = empty)
+/- line:  `<ver><mode>|op;op;…`   (ver = 0 | 1; mode z | s | a = behaviour of short reads of the data
+   of a byte slice inside pkg/scale: zero-fill, strict, either; hex tokens, `-` = empty)
      put k v        Put on the current trie                                  → `-`
      gen ks         P := Generate(root(trie), ks, db); R := root(trie)        → `ok:<n>:<digest>` | `notfound`
      genx ks        P := P ++ Generate(root(trie), ks, db)  (R unchanged)     → same
@@ -15,13 +16,12 @@ open Gossamer Gossamer.C05
 
 def H : Bytes → Bytes := Blake2b.hash256
 
-/-- which behaviour of short reads inside pkg/scale the tree has (tied by C07); `true` = io.ReadFull -/
-def strictMode : Bool := true
-
 structure St where
   ver : Ver
+  modes : List Bool       -- behaviour(s) of short reads inside pkg/scale assumed by the line (`true` = strict)
   t : Trie
   proof : List Bytes
+  pairs : Pairs           -- `pairsOf H proof`, computed when the proof changes
   root : Bytes
   refT : Option Trie      -- the state whose root is `root` (none: root chosen by the prover)
   honest : List Bytes     -- keys whose honest proof nodes are all still in `proof`
@@ -38,9 +38,34 @@ def genOut : Option (List Bytes) → String
   | none => "notfound"
   | some p => s!"ok:{p.length}:{proofDigest p}"
 
+mutual
+/-- what a proof for `key` has to contain whether or not the key is present: the root and the
+    nodes of 32 bytes or more on the longest path that spells a prefix of the key (and the value
+    of the node when it is held by hash) -/
+def pathNodes (ver : Ver) : Bool → ETrie → Nibs → List Bytes
+  | _, .nil, _ => []
+  | isRoot, .leaf enc pk v, key =>
+    let me := if isRoot || decide (enc.length ≥ 32) then [enc] else []
+    if pk == key then me ++ valueNode ver (some v) else me
+  | isRoot, .branch enc pk v kids, key =>
+    let me := if isRoot || decide (enc.length ≥ 32) then [enc] else []
+    if pk == key then me ++ valueNode ver v
+    else if !(pk.isPrefixOf key) then me
+    else
+      match key.drop pk.length with
+      | i :: rest => me ++ pathKid ver kids i.val rest
+      | [] => me
+def pathKid (ver : Ver) : List ETrie → Nat → Nibs → List Bytes
+  | [], _, _ => []
+  | c :: _, 0, key => pathNodes ver false c key
+  | _ :: cs, i + 1, key => pathKid ver cs i key
+end
+
 /-- the proof the property demands for `ks` (present or absent keys): the nodes on each key's path -/
-def specProof (ver : Ver) (t : Trie) (ks : List Bytes) : List Bytes :=
-  (ks.foldl (fun st k => dedupInto H st (pathNodes ver H true t (Trie.keyLEToNibbles k))) ([], [])).2
+def specProof (ver : Ver) (t : ETrie) (ks : List Bytes) : List Bytes :=
+  (ks.foldl (fun st k => dedupInto H st (pathNodes ver true t (Trie.keyLEToNibbles k))) ([], [])).2
+
+def St.setProof (s : St) (p : List Bytes) : St := { s with proof := p, pairs := pairsOf H p }
 
 def setAt {α : Type} (l : List α) (i : Nat) (a : α) : List α := l.take i ++ a :: l.drop (i + 1)
 
@@ -63,8 +88,9 @@ def stepOp (s : St) (op : String) : St × String × String × String :=
       match parseKeys ks with
       | none => same s "bad-op"
       | some keys =>
-        let r := generate s.ver H s.t keys
-        let sp := specProof s.ver s.t keys
+        let et := annot s.ver H s.t
+        let r := generateE s.ver H et keys
+        let sp := specProof s.ver et keys
         let mo := genOut r
         let so := genOut (some sp)
         let absent := keys.any fun k => (Trie.lookup s.t (toNibs k)).isNone
@@ -72,25 +98,25 @@ def stepOp (s : St) (op : String) : St × String × String × String :=
         let got := r.getD []
         let s' : St :=
           if g = "gen" then
-            { s with proof := got, root := hashTrie s.ver H s.t, refT := some s.t,
-                     honest := if r.isSome then keys else [] }
-          else { s with proof := s.proof ++ got }
+            { s.setProof got with root := H et.enc, refT := some s.t,
+                                  honest := if r.isSome then keys else [] }
+          else s.setProof (s.proof ++ got)
         (s', mo, so, tag)
     else if g = "drop" then
       match ks.toNat? with
-      | some i => same (if n = 0 then s else { s with proof := s.proof.eraseIdx (i % n), honest := [] }) "-"
+      | some i => same (if n = 0 then s else { s.setProof (s.proof.eraseIdx (i % n)) with honest := [] }) "-"
       | none => same s "bad-op"
     else if g = "raw" then
       match ofHex? ks with
-      | some e => same { s with proof := s.proof ++ [e] } "-"
+      | some e => same (s.setProof (s.proof ++ [e])) "-"
       | none => same s "bad-op"
     else if g = "rawf" then
       match ofHex? ks with
-      | some e => same { s with proof := e :: s.proof } "-"
+      | some e => same (s.setProof (e :: s.proof)) "-"
       | none => same s "bad-op"
     else if g = "rot" then
       match ks.toNat? with
-      | some i => same (if n = 0 then s else { s with proof := s.proof.rotateLeft (i % n) }) "-"
+      | some i => same (if n = 0 then s else s.setProof (s.proof.rotateLeft (i % n))) "-"
       | none => same s "bad-op"
     else if g = "rootx" then
       match ks.toNat? with
@@ -105,7 +131,7 @@ def stepOp (s : St) (op : String) : St × String × String × String :=
       else
         let e := s.proof.getD (i % n) []
         let j := j % (n + 1)
-        same { s with proof := s.proof.take j ++ e :: s.proof.drop j } "-"
+        same (s.setProof (s.proof.take j ++ e :: s.proof.drop j)) "-"
     | _, _ => same s "bad-op"
   | ["flip", i, j, x] =>
     match i.toNat?, j.toNat?, ofHex? x with
@@ -113,12 +139,14 @@ def stepOp (s : St) (op : String) : St × String × String × String :=
       if n = 0 then same s "-"
       else
         let i := i % n
-        same { s with proof := setAt s.proof i (flipByte (s.proof.getD i []) j xb), honest := [] } "-"
+        same { s.setProof (setAt s.proof i (flipByte (s.proof.getD i []) j xb)) with honest := [] } "-"
     | _, _, _ => same s "bad-op"
   | ["ver", k, v] =>
     match ofHex? k, ofHex? v with
     | some kb, some vb =>
-      let mo := verify H strictMode s.proof s.root kb vb
+      let mos := s.modes.map fun strict => verifyP strict s.pairs s.root kb vb
+      let mo := mos.headD .panic
+      if mos.any (· ≠ mo) then same s "mode-dependent" else
       match s.refT with
       | none => same s mo.str
       | some r =>
@@ -143,19 +171,25 @@ def runOps (s : St) : List String → List (String × String × String)
 
 def step (line : String) : String :=
   match line.splitOn "|" with
-  | [v, body] =>
-    if v ≠ "0" ∧ v ≠ "1" then "bad-op"
-    else
-      let ver := if v = "1" then Ver.v1 else Ver.v0
-      let s0 : St := { ver := ver, t := Trie.nil, proof := [], root := [], refT := none, honest := [] }
-      let outs := runOps s0 (body.splitOn ";")
-      let m := ";".intercalate (outs.map (·.1))
-      let sp := ";".intercalate (outs.map (·.2.1))
-      if m = sp then m
+  | [hd, body] =>
+    match hd.toList with
+    | [v, m] =>
+      let modes : List Bool :=
+        if m = 'z' then [false] else if m = 's' then [true] else if m = 'a' then [false, true] else []
+      if (v ≠ '0' ∧ v ≠ '1') || modes.isEmpty then "bad-op"
       else
-        let tags := (outs.map (·.2.2)).filter (· ≠ "")
-        let kf := if tags.contains "!" then "" else tags.headD ""
-        m ++ "\tspec=" ++ sp ++ (if kf.isEmpty then "" else "\tkf=" ++ kf)
+        let ver := if v = '1' then Ver.v1 else Ver.v0
+        let s0 : St := { ver := ver, modes := modes, t := Trie.nil, proof := [], pairs := [], root := [],
+                         refT := none, honest := [] }
+        let outs := runOps s0 (body.splitOn ";")
+        let m := ";".intercalate (outs.map (·.1))
+        let sp := ";".intercalate (outs.map (·.2.1))
+        if m = sp then m
+        else
+          let tags := (outs.map (·.2.2)).filter (· ≠ "")
+          let kf := if tags.contains "!" then "" else tags.headD ""
+          m ++ "\tspec=" ++ sp ++ (if kf.isEmpty then "" else "\tkf=" ++ kf)
+    | _ => "bad-op"
   | _ => "bad-op"
 
 def main : IO Unit := runDriver step
